@@ -25,7 +25,19 @@ type ChainExec struct {
 	Tok     common.Address
 	coin    common.Address
 	lastBlk *types.Block
+	// AfterCommit, if set, is called with every block this stack committed; its result is appended to the answer
+	AfterCommit func(b *types.Block) string
+	// Extra stacks built with the same genesis (replicas), in the order of ReplicaOpts
+	ReplicaOpts []Opts
+	Replicas    []*Stack
 }
+
+// ContractAddr is the address of the test contract present at genesis when `chain ... code=1`.
+var ContractAddr = common.HexToAddress("0x00000000000000000000000000000000c0dec0de")
+
+// TestContract (runtime code): c = first calldata byte; c == 0xff reverts; otherwise writes storage slots c, c+1, c+2
+// (caller, block number, 7c) and emits LOG1 with topic c.
+var TestContract = common.FromHex("60003560001a8060ff146025573381554381600101558060070281600201556000600" + "0a1005b60006000fd")
 
 var Unit = big.NewInt(1e10)
 
@@ -122,7 +134,10 @@ func (c *ChainExec) Exec(op string) string {
 		if c.S != nil {
 			c.S.Close()
 		}
-		*c = ChainExec{}
+		for _, r := range c.Replicas {
+			r.Close()
+		}
+		*c = ChainExec{AfterCommit: c.AfterCommit, ReplicaOpts: c.ReplicaOpts}
 		return "ok"
 	case "chain":
 		SeedCrypto(uint64(argI(toks, "seed", 1)))
@@ -136,12 +151,24 @@ func (c *ChainExec) Exec(op string) string {
 		for i := 0; i < int(argI(toks, "wallets", 2)); i++ {
 			c.Wallets = append(c.Wallets, NewWallet(i))
 		}
-		s, err := NewStack(Opts{IsTrie: argI(toks, "trie", 1) == 1, Accounts: c.Accts, Balance: units(argI(toks, "bal", 1000000000000)),
-			Tokens: map[common.Address]*big.Int{c.Tok: units(argI(toks, "tbal", 1000000))}})
+		o := Opts{IsTrie: argI(toks, "trie", 1) == 1, Accounts: c.Accts, Balance: units(argI(toks, "bal", 1000000000000)),
+			Tokens: map[common.Address]*big.Int{c.Tok: units(argI(toks, "tbal", 1000000))}}
+		if argI(toks, "code", 0) == 1 {
+			o.Code = map[common.Address][]byte{ContractAddr: TestContract}
+		}
+		s, err := NewStack(o)
 		if err != nil {
 			return "err " + err.Error()
 		}
 		c.S = s
+		for _, ro := range c.ReplicaOpts {
+			ro.Accounts, ro.Balance, ro.Tokens, ro.Code = o.Accounts, o.Balance, o.Tokens, o.Code
+			r, err := NewStack(ro)
+			if err != nil {
+				return "err replica " + err.Error()
+			}
+			c.Replicas = append(c.Replicas, r)
+		}
 		return "ok"
 	}
 	if c.S == nil {
@@ -158,6 +185,12 @@ func (c *ChainExec) Exec(op string) string {
 		tx := types.NewTransaction(uint64(argI(toks, "nonce", 0)), to.Addr, amount, gas, big.NewInt(types.ParGasPrice), nil)
 		err := tx.Sign(types.GlobalSTDSigner, from.Key)
 		return c.admit("xfer", tx, err)
+	case "call": // call of the genesis test contract with one byte of calldata
+		from := c.Accts[argI(toks, "from", 0)]
+		tx := types.NewTransaction(uint64(argI(toks, "nonce", 0)), ContractAddr, big.NewInt(0), uint64(argI(toks, "gas", 1000000)), big.NewInt(types.ParGasPrice),
+			[]byte{byte(argI(toks, "c", 1))})
+		err := tx.Sign(types.GlobalSTDSigner, from.Key)
+		return c.admit("call", tx, err)
 	case "xfertok":
 		from, to := c.Accts[argI(toks, "from", 0)], c.Accts[argI(toks, "to", 1)]
 		amount := units(argI(toks, "amount", 1))
@@ -324,7 +357,11 @@ func (c *ChainExec) finishBlock(b *types.Block) string {
 			}
 		}
 	}
-	return fmt.Sprintf("h=%d txs=%s", b.Height, strings.Join(ids, ","))
+	ans := fmt.Sprintf("h=%d txs=%s", b.Height, strings.Join(ids, ","))
+	if c.AfterCommit != nil {
+		ans += " " + c.AfterCommit(b)
+	}
+	return ans
 }
 
 // ReceiptOp renders the `receipts` op for a height from the store (gas used and status per tx).
